@@ -8,6 +8,8 @@ import (
 	"strings"
 
 	"golang.org/x/tools/go/ssa"
+
+	"manticheck/internal/strtmpl"
 )
 
 // R2: printer ⇄ parser tables of network/ip, by evaluating the parser's access
@@ -165,35 +167,73 @@ func c20FieldLoad(v ssa.Value) (*types.Var, *types.Named, ssa.Value) {
 	return nil, nil, nil
 }
 
-func (c *Ctx) c20PrinterOf(fn *ssa.Function, T *types.Named) *c20Printer {
-	var pr *c20Printer
+// c20PrintersOf: fn returns texts made of constant literals and printed
+// values — fmt.Sprintf with a constant format, or any construction internal/strtmpl
+// models without loops (concatenation with strconv.Itoa/FormatUint, strconv.Append*
+// into a byte buffer, a strings.Builder written to in sequence).
+//
+// A printer may have several returns (a nil guard answering a constant, a short
+// form for a special case): every return that prints at least one value is one
+// FORM of the text and is checked against the parser on its own; a return of a
+// constant prints no field and has nothing to parse back.
+func (c *Ctx) c20PrintersOf(fn *ssa.Function, T *types.Named) []*c20Printer {
+	var out []*c20Printer
 	for _, b := range fn.Blocks {
 		ret, ok := b.Instrs[len(b.Instrs)-1].(*ssa.Return)
 		if !ok {
 			continue
 		}
-		call, ok := ret.Results[0].(*ssa.Call)
-		if !ok {
-			return nil
+		if _, isK := ret.Results[0].(*ssa.Const); isK {
+			continue
 		}
-		pkg, _, name := c20CalleeName(call.Common())
-		if pkg != "fmt" || name != "Sprintf" {
-			return nil
+		var pr *c20Printer
+		var lits []string
+		var verbs []byte
+		var args []ssa.Value
+		format := ""
+		direct := false
+		if call, ok := ret.Results[0].(*ssa.Call); ok {
+			if pkg, _, name := c20CalleeName(call.Common()); pkg == "fmt" && name == "Sprintf" {
+				f, ok := c20ConstString(call.Common().Args[0])
+				if !ok {
+					return nil
+				}
+				a, ok := c20Varargs(call.Common().Args[1])
+				if !ok {
+					return nil
+				}
+				l, v, ok := c20ParseFormat(f)
+				if !ok || len(v) != len(a) {
+					return nil
+				}
+				format, lits, verbs, args, direct = f, l, v, a, true
+			}
 		}
-		format, ok := c20ConstString(call.Common().Args[0])
-		if !ok {
-			return nil
+		if !direct {
+			items, err := strtmpl.New().String(ret.Results[0])
+			if err != nil {
+				return nil
+			}
+			cur := ""
+			for _, it := range items {
+				switch it.Kind {
+				case strtmpl.Lit:
+					cur += it.Lit
+					format += strings.ReplaceAll(it.Lit, "%", "%%")
+				case strtmpl.Val:
+					lits = append(lits, cur)
+					cur = ""
+					verbs = append(verbs, it.Verb)
+					args = append(args, it.Val)
+					format += "%" + string(it.Verb)
+				default:
+					return nil
+				}
+			}
+			lits = append(lits, cur)
 		}
-		args, ok := c20Varargs(call.Common().Args[1])
-		if !ok {
-			return nil
-		}
-		lits, verbs, ok := c20ParseFormat(format)
-		if !ok || len(verbs) != len(args) {
-			return nil
-		}
-		if pr != nil {
-			return nil // more than one formatting return: not a simple printer
+		if len(verbs) == 0 {
+			continue
 		}
 		pr = &c20Printer{fn: fn, format: format, lits: lits, plain: true}
 		for i, vb := range verbs {
@@ -203,8 +243,17 @@ func (c *Ctx) c20PrinterOf(fn *ssa.Function, T *types.Named) *c20Printer {
 			}
 			pr.verbs = append(pr.verbs, c20Verb{verb: vb, field: f, owner: owner})
 		}
+		for _, q := range out {
+			if q.format == pr.format {
+				pr = nil
+				break
+			}
+		}
+		if pr != nil {
+			out = append(out, pr)
+		}
 	}
-	return pr
+	return out
 }
 
 func c20Tables(c *Ctx) []*c20TypeTable {
@@ -249,9 +298,7 @@ func c20Tables(c *Ctx) []*c20TypeTable {
 			}
 			sig := fn.Signature
 			if sig.Params().Len() == 0 && sig.Results().Len() == 1 && c20IsString(sig.Results().At(0).Type()) {
-				if pr := c.c20PrinterOf(fn, n); pr != nil {
-					t.printers = append(t.printers, pr)
-				}
+				t.printers = append(t.printers, c.c20PrintersOf(fn, n)...)
 			}
 		}
 	}
@@ -286,7 +333,8 @@ func c20Tables(c *Ctx) []*c20TypeTable {
 type c20Step struct {
 	sep   string
 	idx   int
-	n     int // SplitN limit (0: unlimited)
+	n     int  // SplitN limit (0: unlimited)
+	last  bool // cut at the LAST occurrence of sep (strings.LastIndex + slicing)
 	split ssa.Value
 }
 
@@ -363,14 +411,90 @@ func c20AllocFields(alloc *ssa.Alloc) (map[*types.Var]ssa.Value, bool) {
 	return out, true
 }
 
+// c20Res is the context an access path is resolved in: the parser's string
+// parameter, the arguments bound to the parameters of in-module helpers that
+// were entered (bind), and the constant a loop counter stands for while one
+// element of a table filled by that loop is being resolved (idx).
+type c20Res struct {
+	c    *Ctx
+	prm  *ssa.Parameter
+	bind map[*ssa.Parameter]ssa.Value
+	idx  map[ssa.Value]int64
+	ev   *strtmpl.Eval
+}
+
+func (rs *c20Res) withBind(g *ssa.Function, args []ssa.Value) *c20Res {
+	out := *rs
+	out.bind = map[*ssa.Parameter]ssa.Value{}
+	for k, v := range rs.bind {
+		out.bind[k] = v
+	}
+	for i, q := range g.Params {
+		if i < len(args) {
+			out.bind[q] = args[i]
+		}
+	}
+	return &out
+}
+
+func (rs *c20Res) withIdx(k ssa.Value, j int64) *c20Res {
+	out := *rs
+	out.idx = map[ssa.Value]int64{}
+	for a, b := range rs.idx {
+		out.idx[a] = b
+	}
+	out.idx[k] = j
+	return &out
+}
+
+// resolve follows helper parameters to the caller's values.
+func (rs *c20Res) resolve(v ssa.Value) ssa.Value {
+	for i := 0; i < 6; i++ {
+		q, ok := v.(*ssa.Parameter)
+		if !ok || q == rs.prm {
+			return v
+		}
+		b, ok := rs.bind[q]
+		if !ok {
+			return v
+		}
+		v = b
+	}
+	return v
+}
+
+func (rs *c20Res) constIndex(v ssa.Value) (int64, bool) {
+	v = rs.resolve(v)
+	if k, ok := c20ConstInt(v); ok {
+		return k, true
+	}
+	k, ok := rs.idx[v]
+	return k, ok
+}
+
+func (rs *c20Res) isConst(v ssa.Value) bool {
+	_, ok := rs.resolve(c20Peel(v)).(*ssa.Const)
+	return ok
+}
+
+type c20Result struct {
+	fields map[*types.Var]ssa.Value
+	rs     *c20Res
+}
+
 // c20ResultFields: field → value for every non-nil *T result of the parser.
-func (c *Ctx) c20ResultFields(fn *ssa.Function, T *types.Named) ([]map[*types.Var]ssa.Value, string) {
-	var out []map[*types.Var]ssa.Value
-	var visit func(v ssa.Value, d int) string
-	visit = func(v ssa.Value, d int) string {
-		if d > 4 {
+// The struct may be built by a literal, by a field-by-field constructor, or by
+// an in-module helper that returns one of those (entered with its parameters
+// bound to the arguments).
+func (c *Ctx) c20ResultFields(fn *ssa.Function, T *types.Named, rs *c20Res) ([]c20Result, string) {
+	var out []c20Result
+	var visitFn func(fn *ssa.Function, rs *c20Res, d int) string
+	var visit func(v ssa.Value, rs *c20Res, d int) string
+	visit = func(v ssa.Value, rs *c20Res, d int) string {
+		if d > 6 {
 			return "result too deep"
 		}
+		v = rs.resolve(v)
 		switch x := v.(type) {
 		case *ssa.Const:
 			if x.Value == nil {
@@ -378,7 +502,7 @@ func (c *Ctx) c20ResultFields(fn *ssa.Function, T *types.Named) ([]map[*types.Va
 			}
 		case *ssa.Phi:
 			for _, e := range x.Edges {
-				if s := visit(e, d+1); s != "" {
+				if s := visit(e, rs, d+1); s != "" {
 					return s
 				}
 			}
@@ -388,8 +512,12 @@ func (c *Ctx) c20ResultFields(fn *ssa.Function, T *types.Named) ([]map[*types.Va
 			if !ok {
 				return "struct literal with fields stored more than once"
 			}
-			out = append(out, m)
+			out = append(out, c20Result{m, rs})
 			return ""
+		case *ssa.Extract:
+			if call, ok := x.Tuple.(*ssa.Call); ok && x.Index == 0 {
+				return visit(call, rs, d+1)
+			}
 		case *ssa.Call:
 			g := x.Common().StaticCallee()
 			if g != nil && g.Blocks != nil && c.P.InModule(g) {
@@ -401,22 +529,33 @@ func (c *Ctx) c20ResultFields(fn *ssa.Function, T *types.Named) ([]map[*types.Va
 							m[f] = x.Common().Args[i]
 						}
 					}
-					out = append(out, m)
+					out = append(out, c20Result{m, rs})
 					return ""
+				}
+				if g.Signature.Results().Len() > 0 {
+					if n := c20NamedStruct(g.Signature.Results().At(0).Type()); n != nil && n.Obj() == T.Obj() && d < 3 {
+						return visitFn(g, rs.withBind(g, x.Common().Args), d+1)
+					}
 				}
 			}
 			return "result is built by a call that is not a field-by-field constructor"
 		}
 		return fmt.Sprintf("result of shape %T is not modelled", v)
 	}
-	for _, b := range fn.Blocks {
-		ret, ok := b.Instrs[len(b.Instrs)-1].(*ssa.Return)
-		if !ok {
-			continue
+	visitFn = func(fn *ssa.Function, rs *c20Res, d int) string {
+		for _, b := range fn.Blocks {
+			ret, ok := b.Instrs[len(b.Instrs)-1].(*ssa.Return)
+			if !ok {
+				continue
+			}
+			if s := visit(ret.Results[0], rs, d); s != "" {
+				return s
+			}
 		}
-		if s := visit(ret.Results[0], 0); s != "" {
-			return nil, s
-		}
+		return ""
+	}
+	if s := visitFn(fn, rs, 0); s != "" {
+		return nil, s
 	}
 	if len(out) == 0 {
 		return nil, "the parser never returns a value"
@@ -424,25 +563,73 @@ func (c *Ctx) c20ResultFields(fn *ssa.Function, T *types.Named) ([]map[*types.Va
 	return out, ""
 }
 
+// c20IndexCut: v is text[:i] or text[i+len(sep):] with i = strings.Index/IndexByte/LastIndex(text, sep).
+func c20IndexCut(x *ssa.Slice, rs *c20Res) (text ssa.Value, st c20Step, ok bool) {
+	if !c20IsString(x.X.Type()) || (x.Low == nil) == (x.High == nil) {
+		return nil, st, false
+	}
+	bound, part := x.High, 0
+	if x.Low != nil {
+		bound, part = x.Low, 1
+	}
+	extra := int64(0)
+	if bo, isB := bound.(*ssa.BinOp); isB && bo.Op == token.ADD {
+		if k, isK := c20ConstInt(bo.Y); isK {
+			bound, extra = bo.X, k
+		} else if k, isK := c20ConstInt(bo.X); isK {
+			bound, extra = bo.Y, k
+		}
+	}
+	call, isCall := bound.(*ssa.Call)
+	if !isCall {
+		return nil, st, false
+	}
+	pkg, _, name := c20CalleeName(call.Common())
+	if pkg != "strings" || len(call.Common().Args) != 2 || rs.resolve(call.Common().Args[0]) != rs.resolve(x.X) {
+		return nil, st, false
+	}
+	sep := ""
+	switch name {
+	case "Index", "LastIndex":
+		sep, ok = c20ConstString(call.Common().Args[1])
+	case "IndexByte", "LastIndexByte", "IndexRune":
+		var k int64
+		k, ok = c20ConstInt(call.Common().Args[1])
+		if ok && k > 0 && k < 0x80 {
+			sep = string(rune(k))
+		} else {
+			ok = false
+		}
+	}
+	if !ok || sep == "" {
+		return nil, st, false
+	}
+	if (part == 0 && extra != 0) || (part == 1 && extra != int64(len(sep))) {
+		return nil, st, false
+	}
+	return x.X, c20Step{sep: sep, idx: part, n: 2, last: strings.HasPrefix(name, "Last"), split: call}, true
+}
+
 // c20Chunk resolves the text a numeric parse is applied to, back to the parameter.
-func c20Chunk(v ssa.Value, prm *ssa.Parameter, d int) (steps []c20Step, trim bool, err string) {
-	if d > 8 {
+func c20Chunk(v ssa.Value, rs *c20Res, d int) (steps []c20Step, trim bool, err string) {
+	if d > 10 {
 		return nil, false, "access path too deep"
 	}
+	v = rs.resolve(v)
 	switch x := v.(type) {
 	case *ssa.Parameter:
-		if x == prm {
+		if x == rs.prm {
 			return nil, false, ""
 		}
 		return nil, false, "text does not come from the string parameter"
 	case *ssa.UnOp:
 		if x.Op == token.MUL {
 			if ia, ok := x.X.(*ssa.IndexAddr); ok {
-				idx, ok := c20ConstInt(ia.Index)
+				idx, ok := rs.constIndex(ia.Index)
 				if !ok {
 					return nil, false, "part selected with a non-constant index"
 				}
-				call, ok := ia.X.(*ssa.Call)
+				call, ok := rs.resolve(ia.X).(*ssa.Call)
 				if !ok {
 					return nil, false, "indexed slice is not the result of a split"
 				}
@@ -461,7 +648,7 @@ func c20Chunk(v ssa.Value, prm *ssa.Parameter, d int) (steps []c20Step, trim boo
 						return nil, false, "SplitN count is not a constant"
 					}
 				}
-				pre, tr, e := c20Chunk(call.Common().Args[0], prm, d+1)
+				pre, tr, e := c20Chunk(call.Common().Args[0], rs, d+1)
 				if e != "" {
 					return nil, false, e
 				}
@@ -470,30 +657,44 @@ func c20Chunk(v ssa.Value, prm *ssa.Parameter, d int) (steps []c20Step, trim boo
 		}
 	case *ssa.Extract:
 		if call, ok := x.Tuple.(*ssa.Call); ok {
+			if g := call.Common().StaticCallee(); g != nil && g.Blocks != nil && rs.c.P.InModule(g) {
+				return c20ChunkInline(call, g, x.Index, rs, d)
+			}
 			pkg, _, name := c20CalleeName(call.Common())
 			if pkg == "strings" && name == "Cut" && x.Index < 2 {
 				sep, ok := c20ConstString(call.Common().Args[1])
 				if !ok {
 					return nil, false, "Cut separator is not a constant"
 				}
-				pre, tr, e := c20Chunk(call.Common().Args[0], prm, d+1)
+				pre, tr, e := c20Chunk(call.Common().Args[0], rs, d+1)
 				if e != "" {
 					return nil, false, e
 				}
 				return append(pre, c20Step{sep: sep, idx: x.Index, n: 2, split: call}), tr, ""
 			}
 		}
+	case *ssa.Slice:
+		if text, st, ok := c20IndexCut(x, rs); ok {
+			pre, tr, e := c20Chunk(text, rs, d+1)
+			if e != "" {
+				return nil, false, e
+			}
+			return append(pre, st), tr, ""
+		}
 	case *ssa.Call:
+		if g := x.Common().StaticCallee(); g != nil && g.Blocks != nil && rs.c.P.InModule(g) && g.Signature.Results().Len() == 1 {
+			return c20ChunkInline(x, g, 0, rs, d)
+		}
 		pkg, _, name := c20CalleeName(x.Common())
 		if pkg == "strings" && name == "TrimSpace" {
-			pre, _, e := c20Chunk(x.Common().Args[0], prm, d+1)
+			pre, _, e := c20Chunk(x.Common().Args[0], rs, d+1)
 			return pre, true, e
 		}
 	case *ssa.Phi:
 		var first []c20Step
 		set := false
 		for _, e := range x.Edges {
-			st, tr, er := c20Chunk(e, prm, d+1)
+			st, tr, er := c20Chunk(e, rs, d+1)
 			if er != "" {
 				return nil, false, er
 			}
@@ -507,33 +708,294 @@ func c20Chunk(v ssa.Value, prm *ssa.Parameter, d int) (steps []c20Step, trim boo
 	return nil, false, fmt.Sprintf("text of shape %T is not modelled", v)
 }
 
+// c20ChunkInline: result #ri of an in-module helper that cuts the text (a
+// splitCIDR(s) (address, prefix string, ok bool)): every return whose value is
+// not a constant must be the same piece, seen with the helper's parameters
+// bound to the arguments.
+func c20ChunkInline(call *ssa.Call, g *ssa.Function, ri int, rs *c20Res, d int) (steps []c20Step, trim bool, err string) {
+	in := rs.withBind(g, call.Common().Args)
+	set := false
+	for _, blk := range g.Blocks {
+		ret, ok := blk.Instrs[len(blk.Instrs)-1].(*ssa.Return)
+		if !ok || ri >= len(ret.Results) {
+			continue
+		}
+		if in.isConst(ret.Results[ri]) {
+			continue
+		}
+		st, tr, e := c20Chunk(ret.Results[ri], in, d+1)
+		if e != "" {
+			return nil, false, e
+		}
+		if set && !c20SameSteps(steps, st) {
+			return nil, false, "helper " + g.Name() + " returns different parts on different paths"
+		}
+		steps, trim, set = st, trim || tr, true
+	}
+	if !set {
+		return nil, false, "helper " + g.Name() + " returns no piece of the text"
+	}
+	return steps, trim, ""
+}
+
 func c20SameSteps(a, b []c20Step) bool {
 	if len(a) != len(b) {
 		return false
 	}
 	for i := range a {
-		if a[i].sep != b[i].sep || a[i].idx != b[i].idx || a[i].n != b[i].n {
+		if a[i].sep != b[i].sep || a[i].idx != b[i].idx || a[i].n != b[i].n || a[i].last != b[i].last {
 			return false
 		}
 	}
 	return true
 }
 
+// c20LoopCovers: the instruction at (a store, an append) runs in every iteration
+// of a counted loop whose counter is k, the loop starts at 0, reaches j, and is
+// left early only towards a return (a rejection). "" = yes.
+func c20LoopCovers(rs *c20Res, k ssa.Value, at ssa.Instruction, j int64) string {
+	var phi *ssa.Phi
+	switch x := k.(type) {
+	case *ssa.Phi:
+		phi = x
+	case *ssa.BinOp:
+		phi, _ = x.X.(*ssa.Phi)
+	}
+	if phi == nil {
+		return "the element index is not a loop counter"
+	}
+	l, err := rs.ev.LoopOf(phi.Block())
+	if err != nil {
+		return "the table is filled by a loop that is not a counted loop: " + err.Error()
+	}
+	if l.Counter != k {
+		return "the element index is not the counter of the enclosing loop"
+	}
+	first := l.Start
+	if l.Range {
+		first++
+	}
+	if first != 0 {
+		return fmt.Sprintf("the filling loop starts at %d", first)
+	}
+	if kb, ok := c20ConstInt(l.Bound); ok {
+		if (l.Op == token.LSS && j >= kb) || (l.Op == token.LEQ && j > kb) {
+			return fmt.Sprintf("element %d is read but the filling loop stops before it (bound %d)", j, kb)
+		}
+	} else if call, ok := l.Bound.(*ssa.Call); ok {
+		if _, _, name := c20CalleeName(call.Common()); name != "len" {
+			return "the bound of the filling loop is not a constant or a length"
+		}
+	} else {
+		return "the bound of the filling loop is not a constant or a length"
+	}
+	body := strtmpl.LoopBlocks(l.Header)
+	if !body[at.Block()] {
+		return "the element is assigned outside the loop its index counts"
+	}
+	for _, pr := range l.Header.Preds {
+		if l.Header.Dominates(pr) && !at.Block().Dominates(pr) {
+			return "the element is not assigned in every iteration"
+		}
+	}
+	for b := range body {
+		if b == l.Header {
+			continue
+		}
+		for _, sc := range b.Succs {
+			if body[sc] {
+				continue
+			}
+			ret, isRet := sc.Instrs[len(sc.Instrs)-1].(*ssa.Return)
+			if isRet && len(ret.Results) > 0 {
+				if k, isK := ret.Results[0].(*ssa.Const); isK && k.Value == nil {
+					continue // leaves the loop to reject the input
+				}
+			}
+			return "the filling loop can be left early (break) without rejecting the input"
+		}
+	}
+	return ""
+}
+
+// c20Element resolves `table[j]` — an element of a local array / made slice
+// that is filled by constant-index stores or by a counted loop, or of a slice
+// grown by one append per iteration — to the value assigned to it.
+func c20Element(load *ssa.UnOp, rs *c20Res, d int) (b c20Binding) {
+	ia := load.X.(*ssa.IndexAddr)
+	j, ok := rs.constIndex(ia.Index)
+	if !ok {
+		b.err = "table element selected with a non-constant index"
+		return
+	}
+	type cand struct {
+		v  ssa.Value
+		rs *c20Res
+	}
+	var cands []cand
+	base := rs.resolve(ia.X)
+	if sl, ok := base.(*ssa.Slice); ok && sl.Low == nil && sl.High == nil {
+		base = sl.X // table[:]
+	}
+	switch x := base.(type) {
+	case *ssa.Alloc, *ssa.MakeSlice:
+		refs := x.(ssa.Value).Referrers()
+		if refs == nil {
+			break
+		}
+		for _, r := range *refs {
+			sa, ok := r.(*ssa.IndexAddr)
+			if !ok || sa.Referrers() == nil {
+				continue
+			}
+			for _, rr := range *sa.Referrers() {
+				st, ok := rr.(*ssa.Store)
+				if !ok || st.Addr != ssa.Value(sa) {
+					continue
+				}
+				if k, isK := c20ConstInt(sa.Index); isK {
+					if k == j {
+						cands = append(cands, cand{st.Val, rs})
+					}
+					continue
+				}
+				if why := c20LoopCovers(rs, sa.Index, st, j); why != "" {
+					b.err = why
+					return
+				}
+				cands = append(cands, cand{st.Val, rs.withIdx(sa.Index, j)})
+			}
+		}
+	case *ssa.Phi:
+		// s = append(s, v) once per iteration: element j is the v of iteration j
+		l, err := rs.ev.LoopOf(x.Block())
+		if err != nil {
+			b.err = "table of shape φ that is not the accumulator of a counted loop"
+			return
+		}
+		for i, e := range x.Edges {
+			if !x.Block().Dominates(x.Block().Preds[i]) {
+				switch iv := e.(type) {
+				case *ssa.MakeSlice:
+					if n, ok := c20ConstInt(iv.Len); !ok || n != 0 {
+						b.err = "appended table does not start empty"
+						return
+					}
+				case *ssa.Slice: // make([]T, 0, constant) is lowered to new [n]T + [:0]
+					_, fresh := iv.X.(*ssa.Alloc)
+					if n, ok := c20ConstInt(iv.High); !fresh || iv.Low != nil || iv.High == nil || !ok || n != 0 {
+						b.err = "appended table does not start empty"
+						return
+					}
+				case *ssa.Const:
+				default:
+					b.err = "appended table does not start empty"
+					return
+				}
+				continue
+			}
+			call, ok := e.(*ssa.Call)
+			if !ok {
+				b.err = "table is not grown by one append per iteration"
+				return
+			}
+			if _, _, name := c20CalleeName(call.Common()); name != "append" || call.Common().Args[0] != ssa.Value(x) {
+				b.err = "table is not grown by one append per iteration"
+				return
+			}
+			vals, ok := c20Varargs(call.Common().Args[1])
+			if !ok || len(vals) != 1 {
+				b.err = "table is not grown by one append per iteration"
+				return
+			}
+			if why := c20LoopCovers(rs, l.Counter, call, j); why != "" {
+				b.err = why
+				return
+			}
+			cands = append(cands, cand{vals[0], rs.withIdx(l.Counter, j)})
+		}
+	default:
+		b.err = fmt.Sprintf("table of shape %T is not modelled", base)
+		return
+	}
+	if len(cands) == 0 {
+		b.err = fmt.Sprintf("element %d of the table is never assigned", j)
+		return
+	}
+	set := false
+	for _, cd := range cands {
+		nb := c20Numeric(cd.v, cd.rs, d+1)
+		if nb.err != "" {
+			return nb
+		}
+		if set && (!c20SameSteps(b.steps, nb.steps) || b.base != nb.base) {
+			b.err = fmt.Sprintf("element %d of the table is assigned from different parts", j)
+			return
+		}
+		b, set = nb, true
+	}
+	return
+}
+
+// c20Inline resolves result #ri of a call of an in-module helper: every return
+// whose value is not a constant (a default / the zero of a rejection) must be
+// the same numeric parse, seen with the helper's parameters bound to the
+// arguments.
+func c20Inline(call *ssa.Call, g *ssa.Function, ri int, rs *c20Res, d int) (b c20Binding) {
+	in := rs.withBind(g, call.Common().Args)
+	set := false
+	for _, blk := range g.Blocks {
+		ret, ok := blk.Instrs[len(blk.Instrs)-1].(*ssa.Return)
+		if !ok || ri >= len(ret.Results) {
+			continue
+		}
+		v := ret.Results[ri]
+		if in.isConst(v) {
+			continue
+		}
+		nb := c20Numeric(v, in, d+1)
+		if nb.err != "" {
+			if nb.err == c20AllConst {
+				continue
+			}
+			return nb
+		}
+		if set && (!c20SameSteps(b.steps, nb.steps) || b.base != nb.base) {
+			b.err = "helper " + g.Name() + " returns different parts on different paths"
+			return
+		}
+		b, set = nb, true
+	}
+	if !set {
+		b.err = c20AllConst
+	}
+	return
+}
+
+const c20AllConst = "field is a constant on every path"
+
 // c20Numeric resolves a field value to the numeric parse that produced it.
-func c20Numeric(v ssa.Value, prm *ssa.Parameter, d int) (b c20Binding) {
-	if d > 6 {
+func c20Numeric(v ssa.Value, rs *c20Res, d int) (b c20Binding) {
+	if d > 10 {
 		b.err = "value too deep"
 		return
 	}
-	v = c20Peel(v)
+	v = rs.resolve(c20Peel(v))
+	v = rs.resolve(c20Peel(v))
 	switch x := v.(type) {
+	case *ssa.Const:
+		b.err = c20AllConst
+		return
 	case *ssa.Phi:
 		set := false
 		for _, e := range x.Edges {
-			if _, isK := c20Peel(e).(*ssa.Const); isK {
+			if rs.isConst(e) {
 				continue // default value on a path that does not parse
 			}
-			nb := c20Numeric(e, prm, d+1)
+			nb := c20Numeric(e, rs, d+1)
+			if nb.err == c20AllConst {
+				continue
+			}
 			if nb.err != "" {
 				return nb
 			}
@@ -544,12 +1006,29 @@ func c20Numeric(v ssa.Value, prm *ssa.Parameter, d int) (b c20Binding) {
 			b, set = nb, true
 		}
 		if !set {
-			b.err = "field is a constant on every path"
+			b.err = c20AllConst
 		}
 		return
+	case *ssa.UnOp:
+		if x.Op == token.MUL {
+			if _, ok := x.X.(*ssa.IndexAddr); ok {
+				return c20Element(x, rs, d)
+			}
+		}
+	case *ssa.Call:
+		if g := x.Common().StaticCallee(); g != nil && g.Blocks != nil && rs.c.P.InModule(g) && g.Signature.Results().Len() == 1 {
+			return c20Inline(x, g, 0, rs, d)
+		}
 	case *ssa.Extract:
 		call, ok := x.Tuple.(*ssa.Call)
-		if !ok || x.Index != 0 {
+		if !ok {
+			b.err = "field is not the value result of a numeric parse"
+			return
+		}
+		if g := call.Common().StaticCallee(); g != nil && g.Blocks != nil && rs.c.P.InModule(g) {
+			return c20Inline(call, g, x.Index, rs, d)
+		}
+		if x.Index != 0 {
 			b.err = "field is not the value result of a numeric parse"
 			return
 		}
@@ -563,8 +1042,8 @@ func c20Numeric(v ssa.Value, prm *ssa.Parameter, d int) (b c20Binding) {
 		switch name {
 		case "ParseUint", "ParseInt":
 			var ok1, ok2 bool
-			b.base, ok1 = c20ConstInt(args[1])
-			b.bits, ok2 = c20ConstInt(args[2])
+			b.base, ok1 = c20ConstInt(rs.resolve(args[1]))
+			b.bits, ok2 = c20ConstInt(rs.resolve(args[2]))
 			if !ok1 || !ok2 {
 				b.err = "base or bit size is not a constant"
 				return
@@ -575,7 +1054,7 @@ func c20Numeric(v ssa.Value, prm *ssa.Parameter, d int) (b c20Binding) {
 			b.err = "strconv." + name + " is not modelled"
 			return
 		}
-		b.steps, b.trim, b.err = c20Chunk(args[0], prm, 0)
+		b.steps, b.trim, b.err = c20Chunk(args[0], rs, 0)
 		return
 	}
 	b.err = fmt.Sprintf("field value of shape %T is not a numeric parse of the text", v)
@@ -675,7 +1154,8 @@ func c20RunR2(c *Ctx) []*c20TypeTable {
 		for _, ps := range t.parsers {
 			prm := ps.Params[0]
 			pname := p.FuncName(ps)
-			results, rerr := c.c20ResultFields(ps, t.T)
+			rs := &c20Res{c: c, prm: prm, ev: strtmpl.New()}
+			results, rerr := c.c20ResultFields(ps, t.T, rs)
 			if rerr != "" {
 				r.Undecided(c20RPair, pname+" ⇄ "+tname, p.Rel(ps.Pos()), rerr)
 				continue
@@ -687,22 +1167,23 @@ func c20RunR2(c *Ctx) []*c20TypeTable {
 				tmpl := c20Template(pr)
 				consumed := map[string]bool{}
 				trimmed := false
-				arity := map[ssa.Value]struct {
-					sep   string
-					parts int
-				}{}
+				type arityOf struct {
+					parts  int
+					splits []ssa.Value
+				}
+				arity := map[string]*arityOf{}
 				for vi, vb := range pr.verbs {
 					construct := fmt.Sprintf("%s ⇄ %s %q: field %s", pname, prname, pr.format, vb.field.Name())
 					c.guard(c20RField, construct, p.Rel(ps.Pos()), func() {
 						var fails, unds []string
 						bound := 0
 						for _, res := range results {
-							val, has := res[vb.field]
+							val, has := res.fields[vb.field]
 							if !has {
 								fails = append(fails, "the printer emits this field but the parser never sets it")
 								continue
 							}
-							b := c20Numeric(val, prm, 0)
+							b := c20Numeric(val, res.rs, 0)
 							if b.err != "" {
 								unds = append(unds, b.err)
 								continue
@@ -713,16 +1194,31 @@ func c20RunR2(c *Ctx) []*c20TypeTable {
 							for _, st := range b.steps {
 								consumed[st.sep] = true
 								var parts []string
-								if st.n > 0 {
+								switch {
+								case st.last:
+									if i := strings.LastIndex(chunk, st.sep); i >= 0 {
+										parts = []string{chunk[:i], chunk[i+len(st.sep):]}
+									} else {
+										parts = []string{chunk}
+									}
+								case st.n > 0:
 									parts = strings.SplitN(chunk, st.sep, st.n)
-								} else {
+								default:
 									parts = strings.Split(chunk, st.sep)
 								}
-								if _, seen := arity[st.split]; !seen {
-									arity[st.split] = struct {
-										sep   string
-										parts int
-									}{st.sep, len(parts)}
+								a := arity[st.sep]
+								if a == nil {
+									a = &arityOf{parts: len(parts)}
+									arity[st.sep] = a
+								}
+								dup := false
+								for _, sp := range a.splits {
+									if sp == st.split {
+										dup = true
+									}
+								}
+								if !dup {
+									a.splits = append(a.splits, st.split)
 								}
 								if st.idx >= len(parts) {
 									fails = append(fails, fmt.Sprintf("the parser takes part [%d] after splitting %q on %q, but the printed text has only %d such part(s)",
@@ -797,18 +1293,24 @@ func c20RunR2(c *Ctx) []*c20TypeTable {
 							lit, where, strings.Join(cs, ", ")))
 					}
 				}
-				// arity
-				var splits []ssa.Value
+				// arity: one obligation per separator the parser cuts on (not per split call:
+				// whether the cuts are made by one Split, a Cut or a helper is the code's business)
+				var seps []string
 				for s := range arity {
-					splits = append(splits, s)
+					seps = append(seps, s)
 				}
-				sort.Slice(splits, func(i, j int) bool { return splits[i].Pos() < splits[j].Pos() })
-				for _, s := range splits {
-					a := arity[s]
-					construct := fmt.Sprintf("%s ⇄ %s %q: number of parts on %q", pname, prname, pr.format, a.sep)
-					ks := c20LenConstants(s)
+				sort.Strings(seps)
+				for _, sp := range seps {
+					a := arity[sp]
+					construct := fmt.Sprintf("%s ⇄ %s %q: number of parts on %q", pname, prname, pr.format, sp)
+					var ks []int64
+					pos := p.Rel(ps.Pos())
+					for _, sv := range a.splits {
+						ks = append(ks, c20LenConstants(sv)...)
+						pos = p.Rel(sv.Pos())
+					}
 					if len(ks) == 0 {
-						r.OK(c20RArity, construct, p.Rel(s.Pos()), "the parser does not compare the number of parts with a constant (nothing to contradict)")
+						r.OK(c20RArity, construct, pos, "the parser does not compare the number of parts with a constant (nothing to contradict)")
 						continue
 					}
 					ok := false
@@ -818,9 +1320,9 @@ func c20RunR2(c *Ctx) []*c20TypeTable {
 						}
 					}
 					if ok {
-						r.OK(c20RArity, construct, p.Rel(s.Pos()), fmt.Sprintf("the printed text has %d part(s) and the parser tests for %d", a.parts, a.parts))
+						r.OK(c20RArity, construct, pos, fmt.Sprintf("the printed text has %d part(s) and the parser tests for %d", a.parts, a.parts))
 					} else {
-						r.Fail(c20RArity, construct, p.Rel(s.Pos()), fmt.Sprintf("the printed text splits into %d part(s) on %q but the parser only accepts %v", a.parts, a.sep, ks))
+						r.Fail(c20RArity, construct, pos, fmt.Sprintf("the printed text splits into %d part(s) on %q but the parser only accepts %v", a.parts, sp, ks))
 					}
 				}
 			}
